@@ -31,7 +31,46 @@ mod refimpl {
     pub mod verify;
 }
 
+use std::alloc::{GlobalAlloc, Layout, System};
 use std::path::PathBuf;
+use std::sync::atomic::{AtomicI64, Ordering as AtomicOrdering};
+
+/// Allocation-fault injector: when armed with n >= 0, the (n+1)-th allocation or reallocation of
+/// at least 512 bytes fails once (returns null). Disarmed (-1) it is the system allocator plus
+/// one relaxed load per call.
+pub struct FaultAlloc;
+pub static ALLOC_FAIL_IN: AtomicI64 = AtomicI64::new(-1);
+
+impl FaultAlloc {
+    #[inline]
+    fn should_fail(size: usize) -> bool {
+        if size < 512 || ALLOC_FAIL_IN.load(AtomicOrdering::Relaxed) < 0 {
+            return false;
+        }
+        ALLOC_FAIL_IN.fetch_sub(1, AtomicOrdering::Relaxed) == 0
+    }
+}
+
+unsafe impl GlobalAlloc for FaultAlloc {
+    unsafe fn alloc(&self, l: Layout) -> *mut u8 {
+        if Self::should_fail(l.size()) {
+            return std::ptr::null_mut();
+        }
+        System.alloc(l)
+    }
+    unsafe fn dealloc(&self, p: *mut u8, l: Layout) {
+        System.dealloc(p, l)
+    }
+    unsafe fn realloc(&self, p: *mut u8, l: Layout, new_size: usize) -> *mut u8 {
+        if Self::should_fail(new_size) {
+            return std::ptr::null_mut();
+        }
+        System.realloc(p, l, new_size)
+    }
+}
+
+#[global_allocator]
+static GLOBAL: FaultAlloc = FaultAlloc;
 use std::time::{Duration, Instant};
 
 fn arg(args: &[String], name: &str) -> Option<String> {
@@ -59,6 +98,7 @@ fn main() {
                 std::process::exit(2);
             }
         },
+        "allocprobe" => c13::allocprobe(&args[2], args[3].parse().unwrap()),
         "cfgprobe" => c16::cfgprobe(&args[2]),
         "nestprobe" => c05::nestprobe(args[2].parse().unwrap(), &args[3], args.get(4).and_then(|s| s.parse().ok()).unwrap_or(0)),
         "run" => {
@@ -87,6 +127,13 @@ fn main() {
                 std::process::exit(2);
             }
             procs::PORT_SHARD.store(ctx.shard as u32, std::sync::atomic::Ordering::Relaxed);
+            // nothing a server signs may depend on the time zone of the process it lives in: the
+            // in-process servers of half of the shards run in a non-UTC zone (set before any thread
+            // exists)
+            if matches!(prop.as_str(), "C11" | "C02" | "C09" | "C10") {
+                const ZONES: [&str; 4] = ["UTC", "Asia/Tokyo", "America/New_York", "Australia/Lord_Howe"];
+                std::env::set_var("TZ", ZONES[(ctx.shard % 4) as usize]);
+            }
             inproc::install_panic_capture();
             let mut o = out::Out::new();
             match prop.as_str() {
